@@ -356,7 +356,15 @@ let () =
                        List.iter
                          (fun (prop, what) ->
                            Printf.printf "ORA prop=%s case=%d step=%d fn=%s what=%s\n" prop !case_id !step kind what)
-                         (Oracles_glue.step_oracles obump v f p)
+                         (Oracles_glue.step_oracles obump v f p);
+                       (* KF-C04-1: auto-wrap on a bottom margin above the last row loses the soft-wrap mark *)
+                       if Model.kf1_C04 v f && Model.wrapmark_lost v f p then kf "C04" "KF-C04-1";
+                       (* KF-C17-1: a soft reset discards the saved cursor of the shown screen (DEC STD 070), although the
+                          property's quantifier lists "soft reset" among the inputs a save / restore round trip survives *)
+                       (match f with
+                        | Decstr when not (Model.ctx_eqb v.vterm.sctx Model.default_ctx) && Model.ctx_eqb p.vterm.sctx Model.default_ctx ->
+                            kf "C17" "KF-C17-1"
+                        | _ -> ())
                    | None ->
                        List.iter
                          (fun (prop, what) ->
